@@ -390,11 +390,14 @@ def _item(w, it, scope):
         src = lit_src(lit)
         # UPPER_CASE name styles: plain, private (leading underscore), with digits, short
         cname = ["MAX_LIMIT_{n}", "_MAX_LIMIT_{n}", "MAXLIMIT{n}", "HTTP2_PORT_{n}", "_POOL_{n}"][it.get("name_style", 0) % 5].format(n=n)
+        typed = it.get("typed", 0)  # 0 untyped | 1, 2: with a type annotation (still an UPPER_CASE constant definition)
         if lang == "py":
-            line = w.emit(0, f"{cname} = {src}")
+            ann = ["", ": float" if _is_float_text(lit["text"]) else ": int", ": Final"][typed % 3]
+            line = w.emit(0, f"{cname}{ann} = {src}")
         elif lang in ("ts", "js"):
             kw = "export const" if it.get("export") else "const"
-            line = w.emit(0, f"{kw} {cname} = {src};")
+            ann = ": number" if typed and lang == "ts" else ""
+            line = w.emit(0, f"{kw} {cname}{ann} = {src};")
         else:
             # const / static items in their spellings (visibility, mutability): all are "const or static items"
             kw = ["const", "static", "static mut", "pub static", "pub const", "pub(crate) static"][int(it.get("static") or 0) % 6]
